@@ -65,6 +65,21 @@ TBias == /\ IsEvent("Bias")
          /\ T.dig = cfg.encdig /\ T.len = cfg.enclen
          /\ UNCHANGED <<lzvars, cfg, agg>>
 
+\* dense sweep of output-size limits for the size-limited encoder (mode "sweep": Reset, then one Limit event per
+\* limit; harness/cdrv/c01_microsweep.c): for EVERY limit the encoder finishes with a valid prefix encoding
+\* within the limit and both decoders give back exactly the consumed prefix
+PropsByteOf(lc, lp, pb) == (pb * 5 + lp) * 9 + lc
+TLimit == /\ IsEvent("Limit") /\ cfg.mode = "sweep"
+          /\ T.limit >= 6
+          /\ T.ret = "STREAM_END"                                   \* never "no space" / LZMA_PROG_ERROR
+          /\ T.tout >= 1 /\ T.tout <= T.limit                       \* within the limit it was given
+          /\ T.tin <= cfg.inlen
+          /\ T.guard                                                \* nothing written past the limit
+          /\ T.libret = "STREAM_END" /\ T.liblen = T.tin /\ T.libeq  \* lzma_microlzma_decoder: exactly the consumed prefix
+          /\ T.glue \in {"ok", "skip"}                              \* independent decoder (sampled limits)
+          /\ T.props \in {-1, PropsByteOf(cfg.lc, cfg.lp, cfg.pb)}   \* first byte = ~props (sampled limits)
+          /\ UNCHANGED <<lzvars, cfg, agg>>
+
 TEnd == /\ IsEvent("End")
         /\ ended = (cfg.eopm = "yes")
         /\ T.consumed <= cfg.inlen
@@ -77,7 +92,7 @@ TEnd == /\ IsEvent("End")
         /\ T.liblen = T.consumed /\ T.libdig = T.indig /\ T.libret = "STREAM_END"
         /\ UNCHANGED <<lzvars, cfg, agg>>
 
-TNext == TReset \/ TLits \/ TMatch \/ TRep \/ TSRep \/ TEopm \/ TAgg \/ TBias \/ TEnd
+TNext == TReset \/ TLimit \/ TLits \/ TMatch \/ TRep \/ TSRep \/ TEopm \/ TAgg \/ TBias \/ TEnd
 TSpec == TInit /\ [][TNext]_tvars
 TraceAccepted == TLCGet("stats").diameter - 1 = Len(TraceLog)
 =============================================================================
